@@ -1376,25 +1376,52 @@ func runR112(c *core.Ctx) {
 		um := g.Methods["UnmarshalRestLi"]
 		okLen := false
 		if um != nil {
-			var guardPos, copyPos token.Pos
+			// every copy into the array is made where len(source) == declared size is known (a length test with an error
+			// exit before it, in any spelling); a copy whose own result is compared with the size accepts longer input
+			upar := core.Parents(um)
+			copies, guardedCopies := 0, 0
 			ast.Inspect(um.Body, func(n ast.Node) bool {
-				switch x := n.(type) {
-				case *ast.IfStmt:
-					if be, ok := core.Unparen(x.Cond).(*ast.BinaryExpr); ok && be.Op == token.NEQ {
-						if cv := core.ConstOf(inf, be.Y); cv != nil {
-							if v, _ := constant.Int64Val(cv); v == arr.Len() && returnsErrorIn(inf, x.Body) {
-								guardPos = x.Pos()
-							}
-						}
+				call, ok := n.(*ast.CallExpr)
+				if !ok || len(call.Args) != 2 {
+					return true
+				}
+				if b, isB := core.ObjOf(inf, call.Fun).(*types.Builtin); !isB || b.Name() != "copy" {
+					return true
+				}
+				copies++
+				src := core.Unparen(call.Args[1])
+				if sl, ok := src.(*ast.SliceExpr); ok {
+					src = core.Unparen(sl.X)
+				}
+				stmt := core.EnclosingStmt(upar, call)
+				if ifs, ok := stmt.(*ast.IfStmt); ok && ifs.Cond != nil && ifs.Cond.Pos() <= call.Pos() && call.End() <= ifs.Cond.End() {
+					return true // the copy is part of a condition: nothing was known before it ran
+				}
+				if core.GuardedByFact(inf, upar, stmt, func(f core.Fact) bool {
+					be, ok := core.Unparen(f.Expr).(*ast.BinaryExpr)
+					if !ok || !((be.Op == token.EQL && f.Val) || (be.Op == token.NEQ && !f.Val)) {
+						return false
 					}
-				case *ast.CallExpr:
-					if id, ok := core.Unparen(x.Fun).(*ast.Ident); ok && id.Name == "copy" {
-						copyPos = x.Pos()
+					x, y := be.X, be.Y
+					if core.ConstOf(inf, x) != nil {
+						x, y = y, x
 					}
+					cv := core.ConstOf(inf, y)
+					lc, isCall := core.Unparen(x).(*ast.CallExpr)
+					if cv == nil || !isCall || len(lc.Args) != 1 {
+						return false
+					}
+					if b, isB := core.ObjOf(inf, lc.Fun).(*types.Builtin); !isB || b.Name() != "len" {
+						return false
+					}
+					v, _ := constant.Int64Val(cv)
+					return v == arr.Len() && core.SameExpr(inf, lc.Args[0], src)
+				}, nil) {
+					guardedCopies++
 				}
 				return true
 			})
-			okLen = guardPos != 0 && copyPos != 0 && guardPos < copyPos
+			okLen = copies > 0 && guardedCopies == copies
 		}
 		whole := false
 		if m := g.Methods["MarshalRestLi"]; m != nil {
